@@ -87,6 +87,23 @@ theorem C11_batching_independent_partial (me : Nat) (n : Node) (bs1 bs2 : List B
   refine node_eq_of_sim s1 s2 t1 t2 ?_
   rw [run_marker me n bs1 h1, run_marker me n bs2 h2, hlast]
 
+/-- the hypotheses "processed completely" hold for EVERY batching with strictly increasing block numbers above the
+    marker of a history without a log that lacks topics (such a log makes `processEvent` panic) -/
+theorem C11_run_completes (me : Nat) (n : Node) (bs : List Block) (hinc : Increasing (n.reg.db.marker.getD 0) bs)
+    (hnt : Event.noTopics ∉ flatten bs) : (run me n bs).2 = true :=
+  run_completes me n bs hinc hnt
+
+/-- batching independence in closed form: same events, same last block number, increasing block numbers, fresh
+    non-zero operator ids, no log without topics ⇒ same final node -/
+theorem C11_batching_independent (me : Nat) (n : Node) (bs1 bs2 : List Block)
+    (hb : Boundary n) (hself : SelfInv me [] n.reg)
+    (hfl : flatten bs1 = flatten bs2) (hlast : lastNumber bs1 = lastNumber bs2)
+    (hwf : OpAddsWF (flatten bs1)) (hnt : Event.noTopics ∉ flatten bs1)
+    (h1 : Increasing (n.reg.db.marker.getD 0) bs1) (h2 : Increasing (n.reg.db.marker.getD 0) bs2) :
+    (run me n bs1).1 = (run me n bs2).1 :=
+  C11_batching_independent_partial me n bs1 bs2 hb hself hfl hlast hwf
+    (run_completes me n bs1 h1 hnt) (run_completes me n bs2 h2 (hfl ▸ hnt))
+
 /-- non-vacuity: two different batchings of a history with valid and malformed events, both processed completely -/
 def sampleEvents : List Event :=
   [.operatorAdded 1 1 1, .operatorAdded 2 1 2, .operatorAdded 3 1 3, .operatorAdded 4 1 4,
